@@ -49,6 +49,14 @@ PAIRS_THOROUGH = PAIRS_QUICK + (("pack-0.92", "0.9"), ("pack-0.92", "4"))
 NULL = b"null:"
 
 
+def code_error(e):
+    """Exceptions that are failures of the code under test: every Exception, plus Rust panics, which surface as
+    pyo3_runtime.PanicException (a BaseException).  Anything else (KeyboardInterrupt, SystemExit...) is re-raised."""
+    if isinstance(e, Exception) or type(e).__name__ == "PanicException":
+        return
+    raise e
+
+
 def sig_exc(stage, e):
     fn = "?"
     for fr in traceback.extract_tb(e.__traceback__):
@@ -120,7 +128,8 @@ def check_bundles(dag, assign, pairs, acc):
                     acc.nt((dag, assign, bfmt, b, t))
                 try:
                     listed = write_bundle(repo, ids[t], base_id, out, format=bfmt)
-                except Exception as e:  # noqa
+                except BaseException as e:  # noqa
+                    code_error(e)
                     acc.violation(sig_exc("write", e) + sfx, dict(d, error=str(e)[:300]))
                     continue
                 if set(listed) != {ids[i] for i in expect}:
@@ -131,7 +140,8 @@ def check_bundles(dag, assign, pairs, acc):
                 try:
                     info = read_bundle(BytesIO(out.getvalue()))
                     ret = info.install_revisions(tgt.repository)
-                except Exception as e:  # noqa
+                except BaseException as e:  # noqa
+                    code_error(e)
                     kc = ":kind-change-in-bundle" if kind_change_in_bundle(dag, assign, b, expect) else ""
                     acc.violation(sig_exc("install", e) + sfx + kc, dict(d, error=str(e)[:300]))
                     continue
@@ -205,14 +215,16 @@ def check_merges(dag, assign, acc, base_dir):
                 try:
                     ta = make_tree("a%d" % k)
                     tb = make_tree("b%d" % k)
-                except Exception as e:  # noqa
+                except BaseException as e:  # noqa
+                    code_error(e)
                     raise HarnessError("cannot sprout: %r" % (e,))
                 # reference: merge from the source branch
                 try:
                     with tb.lock_write():
                         tb.merge_from_branch(src, to_revision=ids[other])
                     ref = wt_state(tb)
-                except Exception as e:  # noqa
+                except BaseException as e:  # noqa
+                    code_error(e)
                     # no tree to compare with (e.g. UnrelatedBranches): the clause does not apply
                     acc.count("reference_merge_raises:" + type(e).__name__)
                     shutil.rmtree(os.path.join(root, "a%d" % k), ignore_errors=True)
@@ -240,7 +252,8 @@ def check_merges(dag, assign, acc, base_dir):
                     got = wt_state(ta)
                     if kind == "directive" and verified != "verified":
                         acc.violation("merge:fresh-directive-patch-not-verified", dict(d, verified=verified))
-                except Exception as e:  # noqa
+                except BaseException as e:  # noqa
+                    code_error(e)
                     got = ("raises", type(e).__name__)
                     if ref != got:
                         kc = ""
@@ -276,6 +289,7 @@ def _work_m(chunk):
     base = boot.scratch("c40m")
     for dag, assign in chunk:
         check_merges(dag, assign, acc, base)
+        acc.sample({"merge_history": {"dag": [list(p) for p in dag], "states": list(assign)}})
     shutil.rmtree(base, ignore_errors=True)
     return acc
 
@@ -325,7 +339,8 @@ def check_directive_fields(acc, thorough):
                 public_branch=None if inc_bundle else src.base, message=msg)
             lines = md.to_lines()
             md2 = merge_directive.MergeDirective.from_lines(lines)
-        except Exception as e:  # noqa
+        except BaseException as e:  # noqa
+            code_error(e)
             acc.violation(sig_exc("directive2", e), dict(d, error=str(e)[:300]))
             continue
         if type(md2) is not merge_directive.MergeDirective2:
@@ -339,7 +354,8 @@ def check_directive_fields(acc, thorough):
         if inc_patch:
             try:
                 v = md2.get_merge_request(src.repository)[2]
-            except Exception as e:  # noqa
+            except BaseException as e:  # noqa
+                code_error(e)
                 acc.violation(sig_exc("directive2-verify", e), dict(d, error=str(e)[:300]))
             else:
                 acc.outcomes.add(("verify", v))
@@ -358,7 +374,8 @@ def check_directive_fields(acc, thorough):
                     message=msg)
             lines = md.to_lines()
             md2 = merge_directive.MergeDirective.from_lines(lines)
-        except Exception as e:  # noqa
+        except BaseException as e:  # noqa
+            code_error(e)
             acc.violation(sig_exc("directive1", e), dict(d, error=str(e)[:300]))
             continue
         diff = field_diff(md, md2, MD_FIELDS1)
@@ -378,11 +395,12 @@ TAMPER_HISTORIES = (
 )
 
 
-HANG_CPU_SECONDS = 5      # CPU time (not wall time: the machine may be loaded) granted to one read+install attempt
+HANG_CPU_SECONDS = 10      # CPU time (not wall time: the machine may be loaded) granted to one read+install attempt
 WALL_LIMIT = 1200
+LAST_CHILD = {}
 
 
-def run_isolated(fn):
+def run_isolated(fn, cpu_limit):
     """Run fn() in a forked child whose CPU time is limited by the kernel (the reader under test may loop for ever
     inside native code, where no Python-level watchdog can interrupt it).  Returns fn's JSON-able result, or None
     when the child was killed for exceeding the CPU limit."""
@@ -391,7 +409,7 @@ def run_isolated(fn):
     if pid == 0:
         try:
             os.close(r)
-            resource.setrlimit(resource.RLIMIT_CPU, (HANG_CPU_SECONDS, HANG_CPU_SECONDS + 1))
+            resource.setrlimit(resource.RLIMIT_CPU, (int(cpu_limit), int(cpu_limit) + 1))
             try:
                 res = fn()
             except BaseException as e:  # noqa
@@ -413,7 +431,9 @@ def run_isolated(fn):
             data += chunk
     finally:
         os.close(r)
-        _, status = os.waitpid(pid, 0)
+        _, status, ru = os.wait4(pid, 0)
+        LAST_CHILD.update(signal=os.WTERMSIG(status) if os.WIFSIGNALED(status) else None,
+                          cpu=round(ru.ru_utime + ru.ru_stime, 2))
     if data:
         return json.loads(data.decode("utf-8"))
     if os.WIFSIGNALED(status) and os.WTERMSIG(status) in (signal.SIGXCPU, signal.SIGKILL):
@@ -490,6 +510,7 @@ def _work_t(chunk):
     from breezy.bzr.bundle.serializer import read_bundle
     acc = par.Acc()
     cache = {}
+    limits = {}
     for kind, repo_fmt, bfmt, hidx, lo, hi in sorted(chunk):
         key = (kind, repo_fmt, bfmt, hidx)
         if key not in cache:
@@ -526,7 +547,8 @@ def _work_t(chunk):
                             return ["patch-check-failed", None, None]
                         if status == "verified" and norm_patch(md.patch) != norm_patch(orig_patch):
                             return ["undetected", "altered-preview-patch-verified", ""]
-                except Exception as e:  # noqa
+                except BaseException as e:  # noqa
+                    code_error(e)
                     return ["raises:" + type(e).__name__, None, None]
                 # nothing complained: whatever is now in the repository must be what the source has
                 repo = Branch.open(store.url + "base").repository
@@ -537,14 +559,23 @@ def _work_t(chunk):
                         try:
                             if testaments(repo, r) != want[r]:
                                 return ["undetected", "testament-differs", r.decode("latin-1")]
-                        except Exception as e:  # noqa
+                        except BaseException as e:  # noqa
+                            code_error(e)
                             return ["undetected", "installed-revision-unreadable:" + type(e).__name__, r.decode("latin-1")]
                 return ["harmless", None, None]
-            res = run_isolated(attempt)
+            if key not in limits:
+                # calibrate on the untouched artefact under the present machine load: the limit is 40x what a
+                # clean read+install costs in a forked child, at least HANG_CPU_SECONDS
+                base_res = run_isolated(lambda: attempt(text), 120)
+                if base_res is None or base_res[0] != "harmless":
+                    raise HarnessError("untouched artefact: %r" % (base_res,))
+                limits[key] = max(HANG_CPU_SECONDS, 40 * LAST_CHILD["cpu"])
+                acc.count("calibration_runs")
+            res = run_isolated(attempt, limits[key])
             tag = kind if kind != "bundle" else "v" + bfmt
             if res is None:
                 outcome = "hang"
-                acc.violation("tamper:reader-does-not-terminate:%s" % tag, dict(d, cpu_seconds=HANG_CPU_SECONDS))
+                acc.violation("tamper:reader-does-not-terminate:%s" % tag, dict(d, cpu_seconds_allowed=round(limits[key], 1), child=dict(LAST_CHILD)))
             elif res[0] == "harness-error":
                 raise HarnessError(res[1])
             else:
@@ -552,6 +583,7 @@ def _work_t(chunk):
                 if outcome == "undetected":
                     acc.violation("tamper:undetected:%s:%s:%s" % (tag, op, res[1]), dict(d, revision=res[2]))
             acc.outcomes.add(outcome)
+            acc.sample({"tamper": {"artefact": tag, "mutation": op, "line": line, "outcome": outcome}})
             acc.count("tamper_" + outcome.split(":")[0])
     for v in cache.values():
         v[0].close()
@@ -581,8 +613,8 @@ def run(ctx):
     pairs = PAIRS_THOROUGH if ctx.thorough else PAIRS_QUICK
     parts = os.environ.get("VERIF_C40_PARTS", "BMDT")
     if ctx.thorough:
-        hs = _hist.histories(4, 7, nstates_for={4: 4})
-        bound = "connected DAGs <= 3 revisions x 7 tree states, 4 revisions x 4 tree states (0-3)"
+        hs = _hist.histories(3, 7) + _hist.histories(4, 3, min_n=4, state_ids=(1, 2, 3))
+        bound = "connected DAGs <= 3 revisions x 7 tree states, 4 revisions x 3 tree states (1-3)"
         hm = _hist.histories(3, 6)
         mbound = "connected DAGs (2-3 revisions) x 6 tree states (0-5)"
     else:
@@ -638,7 +670,7 @@ def run(ctx):
         "counters": {"B": accb.counters, "M": accm.counters, "T": acct.counters},
         "outcomes": sorted(str(o) for o in (accb.outcomes | accm.outcomes | accd.outcomes | acct.outcomes)),
         "tamper_artefacts": [list(a) + [n] for a, n in zip(arts, sizes)],
-        "samples": accb.samples[:2],
+        "samples": (accb.samples[:2] + accm.samples[:1] + acct.samples[:2]) or [{"directive_field_cases": accd.n}],
         "exhaustive": stride == 1 and parts == "BMDT",
         **({"capped": "VERIF_DEV_STRIDE=%d / parts %s" % (stride, parts)} if stride > 1 or parts != "BMDT" else {}),
     }
